@@ -352,7 +352,10 @@ func (r *realm) onLeave(sess *wamp.Session, shutdown, killAll bool) {
 	}
 	<-sync
 
-	if shutdown || killAll {
+	// Sessions ended by wamp.session.kill_all leave like any other killed
+	// session: the caller of kill_all, and sessions that join afterwards,
+	// must see their testaments and wamp.session.on_leave.
+	if shutdown {
 		return
 	}
 	if hasTstm {
